@@ -1,9 +1,9 @@
 SPECIFICATION Spec
 CONSTANTS
   Geoms <- GeomsQuick
-  Amps <- Amps4
+  Amps <- Amps3z
   AmpsL <- Amps2
-  Pin = 3
+  Pin = 4
   Mutant = "none"
   ExemptKnown = TRUE
   Emit = FALSE
